@@ -26,7 +26,8 @@ import (
 //	tx1: log2 = Y/S1   log3 = X/S2
 //
 // filter A = address X selects logs {0,3}; filter B = topic0 S1 selects logs {0,2}: the
-// two filters share log 0, and each selects one log the other does not.
+// two filters share log 0, and each selects one log the other does not. Filter C = address Y
+// selects logs {1,2}: disjoint from A (another address), sharing log 2 with B.
 // The head part of the check only ever switches the node among PREFIXES of this chain,
 // so the content of a block number never changes.
 
@@ -144,9 +145,11 @@ func filterSpecs() map[string]fspec {
 	filterCache = map[string]fspec{
 		"hlA": {Name: "hlA", Fields: []string{"block_time", "log_idx"}, Addrs: [][]byte{addrX}},
 		"hlB": {Name: "hlB", Fields: []string{"block_time", "log_idx"}, Topic0: [][]byte{sig1}},
+		"hlC": {Name: "hlC", Fields: []string{"block_time", "log_idx"}, Addrs: [][]byte{addrY}},
 		"h":   {Name: "h", Fields: []string{"block_time"}},
 		"blA": {Name: "blA", Fields: []string{"tx_input", "log_idx"}, Addrs: [][]byte{addrX}},
 		"blB": {Name: "blB", Fields: []string{"tx_input", "log_idx"}, Topic0: [][]byte{sig1}},
+		"blC": {Name: "blC", Fields: []string{"tx_input", "log_idx"}, Addrs: [][]byte{addrY}},
 		"b":   {Name: "b", Fields: []string{"tx_input"}},
 		"br":  {Name: "br", Fields: []string{"tx_input", "tx_status"}},
 	}
@@ -228,9 +231,15 @@ func (o op) String() string {
 //   - every log that is present: a log of THAT tx in the model with the model's address/topics/data,
 //     no log index twice within a tx
 //   - every model log that matches the CALLER's filter is present
-//
-// Extra (correct) logs or txs that another caller's filter put on a shared cached block are
-// not an error here (row-level isolation is property C04).
+//   - NOTHING ELSE is present ("the same … as an uncached client would"; an uncached client
+//     attaches exactly what ITS OWN plan asked the node for):
+//     a plan with logs (no receipts): every present log matches the caller's filter;
+//     a plan without logs and receipts: no log at all;
+//     a header plan: only transactions that carry at least one log of the caller's plan
+//     (the uncached client creates a tx only when it attaches a log to it);
+//     a plan without receipts: the receipt fields of every tx are zero.
+//     What another caller (another filter, receipts) attached to ITS result of the same
+//     (start, limit) segment must therefore never show up here.
 func compareGet(f fspec, g *glf.Filter, start, limit uint64, blocks []eth.Block) (class, text string) {
 	if uint64(len(blocks)) != limit {
 		return "blocks", fmt.Sprintf("got %d blocks, want %d", len(blocks), limit)
@@ -280,6 +289,14 @@ func compareGet(f fspec, g *glf.Filter, start, limit uint64, blocks []eth.Block)
 					return "txs", wt + ": " + d
 				}
 			}
+			if !g.UseReceipts {
+				if d := cmpNoReceipt(gt); d != "" {
+					return "receipt-extra", fmt.Sprintf("%s: receipt field %s is set although the caller's plan fetches no receipts", wt, d)
+				}
+			}
+			if !g.UseBlocks && refLogs(f, g, mt) == 0 {
+				return "tx-extra", fmt.Sprintf("%s is present (%d logs) on a header plan although none of its logs belongs to the caller's plan; an uncached client returns no such tx", wt, len(gt.Logs))
+			}
 			seenLog := map[uint64]bool{}
 			for k := range gt.Logs {
 				gl := &gt.Logs[k]
@@ -296,6 +313,13 @@ func compareGet(f fspec, g *glf.Filter, start, limit uint64, blocks []eth.Block)
 				}
 				if ml == nil {
 					return "log-wrong", fmt.Sprintf("%s: log index %d is not a log of this tx", wt, li)
+				}
+				if !g.UseReceipts && !(g.UseLogs && f.matches(ml)) {
+					why := "the caller's plan fetches no logs"
+					if g.UseLogs {
+						why = "it does not match the caller's filter"
+					}
+					return "log-extra", fmt.Sprintf("%s: log index %d (address %.4x… topic0 %.4x…) is present but %s; an uncached client returns %d log(s) on this tx", wt, li, ml.Address, ml.Topics[0], why, refLogs(f, g, mt))
 				}
 				if !bytes.Equal(gl.Address, ml.Address) || !bytes.Equal(gl.Data, ml.Data) || len(gl.Topics) != len(ml.Topics) {
 					return "log-wrong", fmt.Sprintf("%s log %d: address/data/topic count differ", wt, li)
@@ -336,6 +360,32 @@ func compareGet(f fspec, g *glf.Filter, start, limit uint64, blocks []eth.Block)
 		}
 	}
 	return "", ""
+}
+
+// refLogs: the number of logs of model tx mt an uncached client attaches under plan (f, g).
+func refLogs(f fspec, g *glf.Filter, mt *simeth.Tx) int {
+	n := 0
+	for _, ml := range mt.Logs {
+		if g.UseReceipts || (g.UseLogs && f.matches(ml)) {
+			n++
+		}
+	}
+	return n
+}
+
+// cmpNoReceipt: the receipt fields of a tx nobody fetched a receipt for are zero.
+func cmpNoReceipt(gt *eth.Tx) string {
+	switch {
+	case gt.Status != 0:
+		return "status"
+	case gt.GasUsed != 0:
+		return "gasUsed"
+	case !gt.EffectiveGasPrice.IsZero():
+		return "effectiveGasPrice"
+	case len(gt.ContractAddress) != 0:
+		return "contractAddress"
+	}
+	return ""
 }
 
 func u256(x *uint256.Int) *big.Int { return x.ToBig() }
